@@ -2007,7 +2007,50 @@ enum Case {
 
 pub fn generated_program(seed: u64, index: u64) -> c05_res::ResProgram {
     let mut rng = Rng::for_case(seed, 0x5001, index);
-    c05_res::generate(&mut rng)
+    let mut p = c05_res::generate(&mut rng);
+    // every fourth program: a use that is the only statement of a `for` body moves into the header of the loop (the increment
+    // clause, or the condition through a comma expression) - the body of the loop is not the only place a loop uses things
+    if index % 4 == 1 {
+        let moved = move_uses_into_loop_headers(&p.text, index % 8 == 1);
+        if moved.1 > 0 {
+            p.text = moved.0;
+            p.features.push("use-in-loop-header".to_string());
+        }
+    }
+    p
+}
+
+fn move_uses_into_loop_headers(text: &str, into_increment: bool) -> (String, usize) {
+    let lines: Vec<&str> = text.lines().collect();
+    let mut out = String::new();
+    let mut moved = 0;
+    let mut i = 0;
+    while i < lines.len() {
+        let l = lines[i];
+        if l.starts_with("    for (uint it") && l.ends_with(")") && i + 3 < lines.len() && lines[i + 1] == "    {" && lines[i + 3] == "    }" {
+            let core = lines[i + 2].trim();
+            let is_expression = core.ends_with(';') && !core.starts_with("float4 ") && !core.starts_with("uint ") && !core.contains('{');
+            if is_expression {
+                let e = &core[..core.len() - 1];
+                let header = &l[..l.len() - 1];
+                let parts: Vec<&str> = header.split("; ").collect();
+                if parts.len() == 3 {
+                    if into_increment {
+                        out.push_str(&format!("{}; {}; {}, {})\n    {{\n    }}\n", parts[0], parts[1], parts[2], e));
+                    } else {
+                        out.push_str(&format!("{}; ({}, {}); {})\n    {{\n    }}\n", parts[0], e, parts[1], parts[2]));
+                    }
+                    moved += 1;
+                    i += 4;
+                    continue;
+                }
+            }
+        }
+        out.push_str(l);
+        out.push('\n');
+        i += 1;
+    }
+    (out, moved)
 }
 
 fn run(ctx: &Ctx) -> Report {
